@@ -183,7 +183,9 @@ def whole_run(seed, nphases=3):
   import openhtf as htf
   from vf import build
   rng = random.Random(seed)
-  s = sched.Sched(policy=sched.RandomPolicy(rng, 0.3), max_steps=400000)
+  # every statement of test_state.py is a scheduling point: the snapshot code (as_base_types) and the
+  # notification code (_notify) share state without a common lock
+  s = sched.Sched(policy=sched.RandomPolicy(rng, 0.3), max_steps=2000000, trace_files=('openhtf/core/test_state.py',))
   box = dict(bad=[], final=[])
 
   def main():
